@@ -1,6 +1,7 @@
 import Dcg.Model.Infer
 import Dcg.Proofs.Infer
 import Dcg.Proofs.InferCompose
+import Dcg.Proofs.MemberRename
 /-
 C16 — a model inferred from sample data accepts that sample.
 Only property theorems live here; helper lemmas are in Dcg/Proofs/Infer.lean.
@@ -212,5 +213,82 @@ theorem v1_excluded_witness :
   decide +kernel
 
 end chain
+
+/-! ### member names that are spelled like the class of their own type (`Parser.__change_field_name`)
+
+A key nested under itself (`{"Error": {"Error": {…}}}`), or any capitalised key whose value is an object, makes a
+member whose name IS the name of the class inferred for its value. With a default (the member is optional:
+absent from a sibling array element) the class attribute hides the class inside the class namespace and pydantic
+v2 evaluates the annotation to `Optional[None]`: the sample is rejected. The pass modelled by
+`Model.MemberRename` repairs exactly that. These theorems are about ANY valid-name function (`cfg.vn`),
+ANY member name and ANY finite set of class names. Tie to the code: campaign `member_rename` of
+vlib/props/c16_names.py (the real pass on real parser results, member lists with repeated names). -/
+section memberRename
+open Dcg.Model.Resolver Dcg.Model.MemberRename Dcg.Proofs.MemberRename Dcg.Proofs.Resolver
+
+/-- The per-member loop always ends (`|class names of the type| + 1` evaluations of its condition). -/
+theorem member_rename_total (cfg : Cfg) (m : Member) : (renameOne cfg m).isSome = true := by
+  rw [renameOne_eq]
+  cases h : uniqueName cfg (State.init m.avoid) (cfg.vn m.name) false with
+  | none => exact absurd h (uniqueName_ne_none _ _ _ _)
+  | some _ => rfl
+
+/-- FULL STRENGTH: after the pass no member is spelled like a class its own type refers to — whatever the
+member was called, however many classes the type names (unions), whatever names the candidates `K_1, K_2, …`
+already collide with. -/
+theorem member_rename_avoids (cfg : Cfg) (m : Member) (u : Str) (h : renameOne cfg m = some u) :
+    u ∉ m.avoid := by
+  rw [renameOne_eq] at h
+  exact (uniqueName_not_taken h).2
+
+/-- No needless rename: a member whose (valid) name is not a class name of its own type keeps it — the wire
+name stays the member name, no alias is written. -/
+theorem member_rename_keeps_free_name (cfg : Cfg) (m : Member) (h : cfg.vn m.name ∉ m.avoid) :
+    renameOne cfg m = some (cfg.vn m.name) := by
+  rw [renameOne_eq]
+  unfold uniqueName
+  rw [taken_init]
+  have hc : m.avoid.contains (cfg.vn m.name) = false := by
+    simpa using h
+  simp only [goU, cand, hc, Bool.false_eq_true, if_false]
+
+/-- The new name is the FIRST free one of `K, K_1, K_2, …`: every earlier candidate is a class name of the
+member's type. -/
+theorem member_rename_first_free (cfg : Cfg) (m : Member) (u : Str) (h : renameOne cfg m = some u) :
+    ∃ k, u = cand cfg.sfx ['_'] (cfg.vn m.name) k ∧ ∀ i, i < k → cand cfg.sfx ['_'] (cfg.vn m.name) i ∈ m.avoid := by
+  rw [renameOne_eq] at h
+  have := goU_first h
+  rw [taken_init] at this
+  simpa using this
+
+/-- The outcome for a member does not depend on the members processed before it (nor after it): whatever
+`pre` and `post` are, the member at position `|pre|` gets what it gets alone. The real loop is compared with
+`pass` on member lists in which the same name occurs several times in a row, with and without a clash. -/
+theorem member_rename_history_independent (cfg : Cfg) (pre post : List Member) (m : Member) :
+    (pass cfg (pre ++ m :: post))[pre.length]? = some (renameOne cfg m) := by
+  simp [pass]
+
+/-- non-vacuity: the nested-key sample. Class `Error` (outer object) has the member `Error` of type `Error1`
+(kept), the array-item class has the member `Error` of type `Error` (renamed `Error_1`, alias `Error`); a member
+of a union type avoids every class of the union, and a taken `Error_1` gives `Error_2`. -/
+example :
+    pass dflt [⟨"Error".toList, ["Error1".toList]⟩, ⟨"Error".toList, ["Error".toList]⟩,
+               ⟨"Error".toList, ["Item".toList, "Error".toList, "Error_1".toList]⟩, ⟨"id".toList, []⟩]
+      = [some "Error".toList, some "Error_1".toList, some "Error_2".toList, some "id".toList] ∧
+    aliasOf "Error".toList (some "Error_1".toList) = some "Error".toList ∧ aliasOf "id".toList (some "id".toList) = none := by
+  decide +kernel
+
+/-- REFUTATION of the other design (one registry for the whole loop, only `exclude_names` fresh per member —
+a per-member resolver derived by a shallow copy): the entry filed under the scratch path by the previous member
+answers for the next member of the same name, and the clash stays: on the nested-key sample the second member
+comes out as `Error`, a class of its own type. History independence above is what excludes it. -/
+theorem shared_registry_refuted :
+    passShared dflt (State.init []) [⟨"Error".toList, ["Error1".toList]⟩, ⟨"Error".toList, ["Error".toList]⟩]
+      = [some "Error".toList, some "Error".toList] ∧
+    pass dflt [⟨"Error".toList, ["Error1".toList]⟩, ⟨"Error".toList, ["Error".toList]⟩]
+      = [some "Error".toList, some "Error_1".toList] := by
+  decide +kernel
+
+end memberRename
 
 end Dcg.Props.C16
